@@ -448,7 +448,7 @@ func (un *Unit) newFrame(fn *ssa.Function, parent *Frame) *Frame {
 	if parent != nil {
 		d = parent.depth + 1
 	}
-	return &Frame{fn: fn, env: map[ssa.Value]Val{}, depth: d, id: un.frameN, parent: parent, calls: map[string]int{}, callRes: map[string][]Val{}, callArgs: map[string]map[string]Val{}}
+	return &Frame{fn: fn, env: map[ssa.Value]Val{}, depth: d, id: un.frameN, parent: parent, calls: map[string]int{}, callRes: map[string][]Val{}, callG: map[string]string{}, callArgs: map[string]map[string]Val{}}
 }
 
 func (un *Unit) inline(fr *Frame, st *State, callee *ssa.Function, binds []Val, args []Val) Val {
@@ -471,6 +471,19 @@ func (un *Unit) inline(fr *Frame, st *State, callee *ssa.Function, binds []Val, 
 	}
 	pre := st.clone()
 	var inlFC *FuncContract
+	if nf.contract != nil && !nf.contract.Inline && callee != un.fn {
+		// a callee whose contract is not applied at call sites (`opt no-frame`: its body is executed in place): what it
+		// requires is still this caller's duty
+		sc := un.scopeFor(nf, st, st, nil)
+		for _, cl := range nf.contract.Clauses {
+			if cl.Kind != "requires" {
+				continue
+			}
+			t, _ := un.evalSpec(cl.E, sc)
+			name := un.uniqueName(fmt.Sprintf("%s/call-pre/%s:%s", funcKey(un.fn), shortKey(funcKey(callee)), labelOr(cl.Label, "requires")))
+			un.oblige(st, "pre", name, cl.Props, t, callee.Pos(), cl.Text)
+		}
+	}
 	if nf.contract != nil && nf.contract.Inline && callee != un.fn {
 		inlFC = nf.contract
 		// the inlined callee's own (separately proved) contract: its requires are this caller's duty ...
@@ -548,6 +561,8 @@ func (un *Unit) recordInlined(fr *Frame, callee *ssa.Function, rets []Val, args 
 		f.callRes[fmt.Sprintf("%s#%d", last, o)] = rvals
 		f.callArgs[fmt.Sprintf("%s#%d", shortKey(calleeKey), o)] = argRec
 		f.callArgs[fmt.Sprintf("%s#%d", last, o)] = argRec
+		f.callG[fmt.Sprintf("%s#%d", shortKey(calleeKey), o)] = g
+		f.callG[fmt.Sprintf("%s#%d", last, o)] = g
 	}
 }
 
@@ -581,6 +596,9 @@ func (un *Unit) execDeferred(fr *Frame, st *State, d deferred) {
 		un.invoke(fr, st, d.fnv, c.Value.Type(), c.Method, d.args, argTypes(c), pos)
 		return
 	}
+	// a deferred Unlock of a lock reached through a pointer field is recognised by its SSA argument, like a direct one
+	un.curCallArgs = c.Args
+	un.callFrame = fr
 	if callee := c.StaticCallee(); callee != nil {
 		var binds []Val
 		if d.fnv.binds != nil {
